@@ -245,7 +245,7 @@ malloc calloc realloc free abort exit getenv time clock isspace isdigit isalpha 
 strtol strtoll strtoul strtoull strtod strtof strtold vsnprintf __errno_location __assert_fail
 pow sqrt fabs floor ceil fmod sin cos tan asin acos atan atan2 exp log log10 log2 round trunc
 sinh cosh tanh cbrt hypot ldexp frexp modf llround lround nearbyint rint isatty fileno
-dlopen dlsym dlclose dlerror usleep nanosleep memchr strcpy strncpy strcat strdup qsort rand srand random srandom
+dup dup2 fdopen close open read write dlopen dlsym dlclose dlerror usleep nanosleep memchr strcpy strncpy strcat strdup qsort rand srand random srandom
 __cxa_allocate_exception __cxa_throw __cxa_begin_catch __cxa_end_catch __cxa_rethrow __cxa_free_exception
 __cxa_guard_acquire __cxa_guard_release __cxa_guard_abort __cxa_atexit __cxa_pure_virtual __cxa_bad_cast __cxa_bad_typeid
 __cxa_throw_bad_array_new_length __dynamic_cast _Unwind_Resume
@@ -290,6 +290,10 @@ class FuncRenderer:
             return 'void *'
         # anonymous unscoped enum (no fixed underlying type can be named in the dump): g++ gives it unsigned int
         t = re.sub(r'(?:enum )?\._anon_\d+D_\d+', 'unsigned int', t)
+        # anonymous struct named by its typedef for linkage: the dump prints the mangled (length-prefixed) name
+        def demangle_td(m):
+            return (m.group(2) + 'D_' + m.group(3)) if len(m.group(2)) == int(m.group(1)) else m.group(0)
+        t = re.sub(r'\b(\d+)([A-Za-z_]\w*?)D_(\d+)\b', demangle_td, t)
         def rep(m):
             name, uid = m.group(1), m.group(2)
             return '@U%s:%s@' % (uid, name)
@@ -877,6 +881,11 @@ def method_render(self):
         if not adv:
             state[n] = 2; order.append(n); stack.pop()
     order.reverse()
+    if back and entry == min(order):
+        # functions with loops: GCC's own block numbering keeps every loop contiguous and properly nested, with the
+        # loop test as a conditional backward jump (the shape CBMC's unwinder counts correctly); a DFS order can
+        # interleave an inner loop's body with the outer loop's exit (seen on Executable::run)
+        order = sorted(order)
     self.has_loops = bool(back)
     self.back_edges = back
     bylines = dict(out)
@@ -940,7 +949,7 @@ def cname_of(q, aliases):
 
 # names of pure virtual slots, used only when no overrider's vtable is in the translation unit; every
 # translation unit where the name CAN be derived is checked against this table (mismatch = abort)
-KNOWN_SLOTS = {('Expression', 2): 'unparse', ('Expression', 4): 'type', ('Expression', 5): 'value',
+KNOWN_SLOTS = {('Controller', 4): 'finalizeControl', ('Expression', 2): 'unparse', ('Expression', 4): 'type', ('Expression', 5): 'value',
                ('PluginBase', 2): 'declareInterface', ('PluginBase', 3): 'createObject', ('PluginBase', 4): 'destroyObject', ('PluginBase', 5): 'executeMethod'}
 
 class Renderer:
@@ -1183,7 +1192,10 @@ class Renderer:
                     for op2, nm2 in parts[i + 1:]:
                         if not nm2.startswith('@B'):
                             nxt = nm2; break
-                    bq = self.base_of(q, nm, nxt)
+                    try:
+                        bq = self.base_of(q, nm, nxt)
+                    except G2CError as e:
+                        raise G2CError('%s (in %s, expression %s%s)' % (e, fr.f.pretty, var, chain))
                     outp += op + '_base_' + cn(bq)
                     q = bq
                 else:
